@@ -190,6 +190,9 @@ func HarnessProxyWiring() {
 		tr, ok2 := rp.Transport.(*http.Transport)
 		vAssert(ok2 && tr.ResponseHeaderTimeout == rt, "wiring: response-header timeout is the target timeout")
 		vAssert(rp.Rewrite != nil && rp.ErrorHandler != nil && rp.Director == nil, "wiring: Rewrite and ErrorHandler installed")
+		// (net/http: with MaxConnsPerHost set, requests beyond the cap block in the transport's queue, where the
+		// response-header timeout is not running: a silent target would then be answered later than the target timeout)
+		vAssert(ok2 && tr.MaxConnsPerHost == 0, "wiring: no per-host connection cap queues requests outside the response-header timeout")
 	}
 	vAssert(t.Target() == "backend:3000", "wiring: target name")
 	// buffering wrappers are applied outermost-request, then response, then proxy
@@ -264,4 +267,23 @@ func vRebuildTargetChain(t *Target, inner http.Handler) http.Handler {
 		h = WithRequestBufferMiddleware(t.options.MaxMemoryBufferSize, t.options.MaxRequestBodySize, h)
 	}
 	return h
+}
+
+// HarnessBufferPool: the copy buffers ReverseProxy takes from the target's pool while streaming a body: two buffers
+// that are out at the same time (two responses being copied concurrently) never share memory, and each has the
+// configured size. (A shared buffer mixes the bodies of concurrent responses.)
+func HarnessBufferPool() {
+	n := vIntRange("size", 1, 4)
+	p := NewBufferPool(int64(n))
+	b1 := p.Get()
+	b2 := p.Get()
+	vAssert(len(b1) == n && len(b2) == n, "pool: buffers have the configured size")
+	b1[0] = 1
+	b2[0] = 2
+	vAssert(b1[0] == 1 && b2[0] == 2, "pool: two buffers in use at the same time do not share memory")
+	p.Put(b1)
+	b3 := p.Get()
+	b3[0] = 3
+	vAssert(b2[0] == 2, "pool: a buffer handed out again does not alias one still in use")
+	vCover(n > 1, "larger buffer reachable")
 }
